@@ -408,6 +408,45 @@ func TestC12Create(t *testing.T) {
 		if len(got) != vals {
 			rt.Fatalf("COMBINE: %d distinct combined keys, want %d", len(got), vals)
 		}
+		// ... and from a drawn subset of the node directories of at least threshold size (what an operator who
+		// lost some nodes has): any such subset recombines every validator's key, not only a prefix of the node list
+		if effThr < n {
+			perm := rapid.Permutation(seq(n)).Draw(rt, "combineSubset")
+			size := rapid.IntRange(effThr, n-1).Draw(rt, "combineSubsetSize")
+			sub, err := os.MkdirTemp("", "verif-c12-sub-")
+			if err != nil {
+				rt.Fatalf("HARNESS-ERROR: %v", err)
+			}
+			defer os.RemoveAll(sub)
+			for _, k := range perm[:size] {
+				if err := os.CopyFS(filepath.Join(sub, fmt.Sprintf("node%d", k)), os.DirFS(filepath.Join(dir, fmt.Sprintf("node%d", k)))); err != nil {
+					rt.Fatalf("HARNESS-ERROR: copy node directory: %v", err)
+				}
+			}
+			out2, err := os.MkdirTemp("", "verif-c12-out2-")
+			if err != nil {
+				rt.Fatalf("HARNESS-ERROR: %v", err)
+			}
+			defer os.RemoveAll(out2)
+			if err := combine.Combine(context.Background(), sub, out2, true, false, "", eth2util.Network{}, combine.WithInsecureKeysForT(t)); err != nil {
+				rt.Fatalf("COMBINE: the directories of nodes %v (threshold %d of %d) do not recombine: %v", perm[:size], effThr, n, err)
+			}
+			files2, err := keystore.LoadFilesUnordered(out2)
+			if err != nil {
+				rt.Fatalf("COMBINE: output keystores of the subset: %v", err)
+			}
+			got2 := map[string]bool{}
+			for _, k := range files2.Keys() {
+				pub, _ := tbls.SecretToPublicKey(k)
+				got2[string(pub[:])] = true
+			}
+			for j, v := range lock.Validators {
+				if !got2[string(v.PubKey)] {
+					rt.Fatalf("COMBINE: nodes %v (threshold %d of %d): no combined keystore for validator %d", perm[:size], effThr, n, j)
+				}
+			}
+			vstat.Count("combine_from_strict_subset_of_nodes", 1)
+		}
 		nontrivial := effThr < n || len(amounts) > 1 || vals > 1
 		vstat.Case(fmt.Sprintf("%d/%d/%d/%s/%v/%v/%s", n, thr, vals, network, amounts, compounding, defVersion), nontrivial, "create", "network:"+network, cls("via_definition_file:"+defVersion, viaDef), cls("partial_deposits", len(amounts) > 1), cls("compounding", compounding), cls("custom_threshold", thr != 0))
 		if nontrivial && vstat.WantSample("create") {
